@@ -118,6 +118,9 @@ func (cv0 *HookConfigV0) ConvertAndCheck(c *HookConfig) error {
 			kubeConfig.BindingName = kubeCfg.Name
 		}
 		kubeConfig.Queue = "main"
+		// Version 0 has no keepFullObjectsInMemory option and its binding context is built from the object.
+		kubeConfig.KeepFullObjectsInMemory = true
+		kubeConfig.Monitor.KeepFullObjectsInMemory = true
 
 		c.OnKubernetesEvents = append(c.OnKubernetesEvents, kubeConfig)
 	}
